@@ -71,6 +71,11 @@ func init() {
 		Doc: "every single-bit flip of every byte of every handshake act (small auth payload), for v2 XX and KK (thorough: also v0 and v1 XX)",
 	})
 	simrt.Register(&simrt.Scenario{
+		Prop: "C04", Name: "callbacks-refuse", Enumerated: true, Count: fixed(len(c04Configs()) * 3),
+		Run: c04Refuse, MaxOps: 1 << 20, Horizon: time.Hour,
+		Doc: "for every configuration: the initiator's onRemoteStatic, the initiator's onAuthData or the responder's onRemoteStatic callback returns an error (the application cannot persist the key / rejects the payload); a party whose callback refused must not report a completed handshake, and if both complete the agreement oracle applies",
+	})
+	simrt.Register(&simrt.Scenario{
 		Prop: "C04", Name: "repeat-handshakes", Count: tiered(400, 160000),
 		Run: c04Repeat, MaxOps: 1 << 20, Horizon: time.Hour,
 		Doc: "2-5 consecutive handshakes on the same long-lived ConnData objects (as a session does): XX first, KK afterwards when version 2 paired them; the responder's auth payload changes between handshakes (non-empty, empty, nil, other sizes); after each one the agreement oracle, and the initiator's stored auth data and onAuthData callback must reflect this handshake's payload",
@@ -94,6 +99,17 @@ func c04Spec(pr *prng, cfg c04Cfg, auth []byte) hsSpec {
 
 // c04Agree checks the agreement oracle once both parties completed.
 func c04Agree(rc *simrt.RunCtx, what, tamper string, sp hsSpec, cli, srv *party) {
+	// a party whose application refused the key or the payload has not
+	// accepted the handshake's result: it must not report completion
+	for _, p := range []struct {
+		name string
+		p    *party
+	}{{"initiator", cli}, {"responder", srv}} {
+		if p.p.err == nil && len(p.p.refused) > 0 {
+			rc.Violate("c04.agree", tamper+"/completed-although-callback-refused/"+p.name, "%s: the %s reports a completed handshake although its %s callback returned an error (remote key stored: %v, auth data stored: %d bytes)", what, p.name, p.p.refused[0], p.p.data.RemoteKey() != nil, len(p.p.data.AuthData()))
+			return
+		}
+	}
 	if cli.err != nil || srv.err != nil {
 		switch {
 		case cli.err != nil && srv.err != nil:
@@ -115,6 +131,10 @@ func c04Agree(rc *simrt.RunCtx, what, tamper string, sp hsSpec, cli, srv *party)
 	switch {
 	case cm.sendCipher.secretKey != sm.recvCipher.secretKey || cm.recvCipher.secretKey != sm.sendCipher.secretKey:
 		bad("keys", "their traffic keys are not complementary")
+	case cm.sendCipher.salt != sm.recvCipher.salt || cm.recvCipher.salt != sm.sendCipher.salt:
+		bad("keys", "the rotation salts of their traffic keys are not complementary (the streams part at the first key rotation)")
+	case cm.sendCipher.nonce != sm.recvCipher.nonce || cm.recvCipher.nonce != sm.sendCipher.nonce:
+		bad("keys", "their record counters differ right after the handshake")
 	case cm.version != sm.version:
 		bad("version", "the initiator negotiated version %d and the responder version %d (remote key published: initiator %v, responder %v)", cm.version, sm.version, len(cli.gotKeys) > 0, len(srv.gotKeys) > 0)
 	case cm.remoteStatic == nil || !cm.remoteStatic.IsEqual(sp.srvKey.PubKey()):
@@ -401,4 +421,33 @@ func lastBytes(b [][]byte) []byte {
 		return nil
 	}
 	return b[len(b)-1]
+}
+
+func c04Refuse(rc *simrt.RunCtx) {
+	cfgs := c04Configs()
+	cfg := cfgs[rc.Idx()%len(cfgs)]
+	which := (rc.Idx() / len(cfgs)) % 3
+	pr := newPrng(rc.Seed())
+	installEphemeralGen(pr)
+	sp := c04Spec(pr, cfg, marker(rc.Seed(), 40))
+	name := []string{"initiator-onRemoteStatic", "initiator-onAuthData", "responder-onRemoteStatic"}[which]
+	switch which {
+	case 0:
+		sp.cliRefuseKey = true
+	case 1:
+		sp.cliRefuseAuth = true
+	case 2:
+		sp.srvRefuseKey = true
+	}
+	ca, cb := newDuplex()
+	cli, srv := runHandshake(rc, sp, ca, cb)
+	waitParties(cli, srv)
+	what := fmt.Sprintf("%s refuses, kk=%v versions c[%d,%d] s[%d,%d]", name, cfg.kk, cfg.cMin, cfg.cMax, cfg.sMin, cfg.sMax)
+	rc.Sample("%s: initiator %s, responder %s", what, describeErr(cli.err), describeErr(srv.err))
+	c04Agree(rc, what, "callback-refuses", sp, cli, srv)
+	if len(cli.refused)+len(srv.refused) > 0 {
+		rc.Probe("c04.callback-refused")
+	}
+	rc.Progress()
+	rc.Fault("refuse-" + name)
 }
